@@ -65,6 +65,7 @@ class LaneEval:
         self.round_seen = []    # rounding calls treated as sources
         self.float_inputs = []  # Vals that were converted int->float (read kernels)
         self.max_depth = max_depth
+        self.big_endian = bool(getattr(prog, 'info', {}).get('big_endian'))
 
     # ---- source / destination element recognition
     def _is_elem(self, f, n, name):
@@ -72,10 +73,17 @@ class LaneEval:
         n = f.unwrap(n)
         return n['k'] == 'ArraySubscriptExpr' and f.unwrap(f.N[n['kids'][0]])['k'] == 'DeclRefExpr' and f.unwrap(f.N[n['kids'][0]])['n'] == name
 
+    def membit(self, w, k):
+        """memory bit index (byte address * 8 + bit in byte) of value bit k of a w-bit object in host memory"""
+        if getattr(self, 'big_endian', False):
+            return 8 * (w // 8 - 1 - k // 8) + k % 8
+        return k
+
     def src_val(self):
         d = self.src_desc
         if d[0] == 'int':
-            return Val([('s', k) for k in range(d[1])], d[2])
+            # symbols name MEMORY bits of the source element; the loaded value has them in host byte order
+            return Val([('s', self.membit(d[1], k)) for k in range(d[1])], d[2])
         return None
 
     # ---- expression evaluation in function f with environment env
@@ -304,7 +312,9 @@ class LaneEval:
             return
         b = val.ext(8 * nbytes)
         for j in range(nbytes):
-            self.dest[byteoff + j] = b[8 * j: 8 * j + 8]
+            # byte j of the stored object in host memory order
+            vj = (nbytes - 1 - j) if getattr(self, 'big_endian', False) else j
+            self.dest[byteoff + j] = b[8 * vj: 8 * vj + 8]
 
     # ---- statements
     def _run_body(self, f, env, depth):
